@@ -396,6 +396,25 @@ Section Ops.
     | _, _ => (a, Raise)
     end.
 
+  (* ---------- hash ----------
+     __hash__ sorts the (key, child) pairs of a Categorize; Python 3 refuses to compare a bool
+     key with a str key, so hash() raises TypeError exactly when both kinds of key are present *)
+  Definition is_bool_key (kc : key * agg) : bool :=
+    match fst kc with KBool _ => true | _ => false end.
+  Definition is_str_key (kc : key * agg) : bool :=
+    match fst kc with KStr _ => true | _ => false end.
+
+  Fixpoint hashable (a : agg) : bool :=
+    match a with
+    | Leaf _ _ _ => true
+    | Node k _ _ fx sp _ _ =>
+        forallb hashable fx && forallb (fun kc => hashable (snd kc)) sp &&
+        match k with
+        | KCat => negb (existsb is_bool_key sp && existsb is_str_key sp)
+        | _ => true
+        end
+    end.
+
   (* ---------- * ---------- *)
   Fixpoint scalable (a : agg) : bool :=
     match a with
